@@ -2,7 +2,7 @@
 from harness import core
 from harness.core import cb, cl, cz
 
-FLAV = {'native': 'Native', 'codec': 'NativeCodec', 'decorated': 'Decorated', 'wrapped': 'Wrapped', 'wrapped_callable': 'Wrapped'}
+FLAV = {'native': 'Native', 'codec': 'NativeCodec', 'decorated': 'Decorated', 'decorated_list': 'Decorated', 'wrapped': 'Wrapped', 'wrapped_callable': 'Wrapped'}
 
 
 class C13(core.Prop):
@@ -44,8 +44,12 @@ class C13(core.Prop):
                 elif r < 0.65:
                     k, m = rng.randint(-2, 3), rng.randint(-2, 3)
                     ops.append(['params', k, m])
-                elif r < 0.75:
+                elif r < 0.72:
                     ops.append(['pickle'])
+                elif r < 0.80:
+                    ops.append([rng.choice(['functor', 'functor', 'functor_empty']), rng.randint(-3, 3)])
+                elif r < 0.86:
+                    ops.append(['fork_train', rng.randint(-3, 3), rng.randint(-3, 3), rng.randint(-3, 3)])
                 else:
                     same = rng.random() < 0.5
                     ops.append(['transfer', k if same else rng.randint(-2, 3), m if same else rng.randint(-2, 3), rng.random() < 0.6, rng.randint(-3, 3)])
@@ -70,7 +74,7 @@ class C13(core.Prop):
                 ops.append(f'(OSetParams {cz(op[1])} {cz(op[2])})')
             elif op[0] == 'transfer':
                 ops.append(f'(OTransfer {cz(op[1])} {cz(op[2])} {cb(op[3])} {cz(op[4])})')
-        outs = [o for op, o in zip(case['ops'], obs['outs']) if op[0] != 'pickle']
+        outs = [o for op, o in zip(case['ops'], obs['outs']) if op[0] not in ('pickle', 'functor', 'functor_empty', 'fork_train')]
         conv = lambda o: 'Silent' if o == 'silent' else ('Untrained' if o == 'untrained' else f'(Val {cz(o)})')
         return f"(C13.CActor {FLAV[case['flavour']]} {cz(case['k'])} {cz(case['m'])} {cl(ops, 'op')} {cl([conv(o) for o in outs], 'out')})"
 
@@ -90,6 +94,18 @@ class C13(core.Prop):
                 want = 'untrained' if acc is None else acc * m + op[1]
                 if got != want:
                     return f'apply({op[1]}) = {got}, expected {want}'
+            elif op[0] in ('functor', 'functor_empty'):
+                # one functor object (builder with the initial parameters) executed repeatedly: every execution starts from
+                # a fresh actor given exactly the state passed in - an empty state means untrained
+                want = 'untrained' if (acc is None or op[0] == 'functor_empty') else acc * case['m'] + op[1]
+                if got != want:
+                    return f'{op[0]} execution of the shared functor answered {got} for {op[1]}, expected {want}'
+            elif op[0] == 'fork_train':
+                if case['flavour'] != 'codec':
+                    want = 'untrained' if acc is None else acc * case['m'] + op[3]
+                    if got != want:
+                        return (f'a second actor loaded from the same exported state answered {got} for {op[3]} after the first one '
+                                f'trained on, expected {want}')
             elif op[0] == 'transfer':
                 _, tk, tm, preset, x = op
                 if preset or case['flavour'] != 'codec':
